@@ -6,8 +6,8 @@ Subject: `HailVerif.CI` (`Model/CI.lean`), the model of `WatchedBranch` / `PR` o
 the state; tied to the real classes by `harness/props/c30.py` (real code driven by fake GitHub / batch services; the
 state after every block of the `_update` loop is compared with the model).
 
-`fix = false` is the code as it is; `fix = true` differs in one line of `PR._update_batch` (an unfinished current batch resets
-`build_state`), the candidate patch for the finding below.
+`fix = true` is the code as it is (commit aefc231fb: an unfinished current batch resets `build_state` in `PR._update_batch`);
+`fix = false` is the code before that commit, kept to document the repaired defect (`…_old…` theorems).
 
 All theorems are about every state reachable from the initial state by ANY history of events (GitHub snapshots with
 arbitrary content — only PR numbers are distinct —, batch refreshes, heal+merge steps with arbitrary build / merge answers,
@@ -165,8 +165,9 @@ def MergeOnlyTested (fix : Bool) : Prop :=
     ∃ t, (healed st a).sha = some t ∧
       ∃ b ∈ (healed st a).svc, b.sourceSha = sha ∧ b.targetSha = t ∧ b.state = .success
 
-/-- With the candidate patch (an unfinished current batch resets `build_state`) the full statement holds. -/
-theorem merge_only_tested_patched : MergeOnlyTested true := by
+/-- MERGE ONLY TESTED, full strength, for the code as it is: every merge request (over all histories) is for a PR whose head
+commit has a SUCCESSFUL test batch in the batch service against the target sha CI knows. -/
+theorem merge_only_tested : MergeOnlyTested true := by
   intro st hr a n sha ok h
   obtain ⟨p, hp, _, hs, _, _, _, _, hbs, id, t, hb, hsha⟩ := merge_guard hr a n sha ok h
   have hinv0 : InvQ QTested st := reachable_invQ goodQ_tested updateBatch_tested hr
@@ -193,9 +194,9 @@ def witness : List Event :=
     .heal ⟨[], []⟩,
     .github { targetSha := 1001, prs := [pr 1 false .APPROVED (ci .PENDING), pr 2 true .APPROVED (ci .PENDING)] } ]  -- PR 1 approved
 
-/-- Negation of the full statement for the code as it is: after the witness history the next heal+merge block merges PR 1
-although the only batch of head 500 against target 1001 (batch 2) is still running. -/
-theorem merge_only_tested_fails : ¬ MergeOnlyTested false := by
+/-- THE REPAIRED DEFECT: for the code before aefc231fb the full statement fails — after the witness history the next heal+merge
+block merged PR 1 although the only batch of head 500 against target 1001 (batch 2) was still running. -/
+theorem merge_only_tested_old_fails : ¬ MergeOnlyTested false := by
   intro h
   have hr : Reachable false (run false init witness).1 :=
     run_reachable false witness (by decide) init Reachable.init
@@ -213,8 +214,8 @@ theorem merge_only_tested_fails : ¬ MergeOnlyTested false := by
   · simp at h2
   · simp at h3
 
-/-- the hypothesis of the partial theorem: when a batch refresh happens, it never finds an unfinished batch for a PR whose
-`build_state` is `success` (exactly the situation the patch changes; it arises when another PR with the same head commit starts a build) -/
+/-- what the old code needed in addition: when a batch refresh happens, it never finds an unfinished batch for a PR whose
+`build_state` is `success` (exactly the situation the fix changed; it arises when another PR with the same head commit starts a build) -/
 def NoStaleSuccess (st : State) : Prop := ∀ p ∈ st.prs, p.updateBatch false st.svc = p.updateBatch true st.svc
 
 inductive ReachableNS : State → Prop where
@@ -239,11 +240,11 @@ theorem reachableNS_patched {st : State} (h : ReachableNS st) : Reachable true s
   | init => exact Reachable.init
   | step e _ hw hns ih => rw [step_false_eq_true _ e hns]; exact Reachable.step e ih hw
 
-/-- PARTIAL (code as it is, explicit hypothesis `NoStaleSuccess` at every batch refresh of the history): merges are tested. -/
-theorem merge_only_tested_partial {st : State} (hr : ReachableNS st) (a : Answers) (n : Nat) (sha : Sha) (ok : Bool)
+/-- what held for the OLD code (explicit hypothesis `NoStaleSuccess` at every batch refresh of the history): merges are tested. -/
+theorem merge_only_tested_old_partial {st : State} (hr : ReachableNS st) (a : Answers) (n : Nat) (sha : Sha) (ok : Bool)
     (h : Out.merge n sha ok ∈ (evHeal st a).2) :
     ∃ t, (healed st a).sha = some t ∧ ∃ b ∈ (healed st a).svc, b.sourceSha = sha ∧ b.targetSha = t ∧ b.state = .success :=
-  merge_only_tested_patched st (reachableNS_patched hr) a n sha ok h
+  merge_only_tested st (reachableNS_patched hr) a n sha ok h
 
 /-! Non-vacuity: a plain history reaches a merge; the assert fires in the stale-status situation. -/
 
@@ -254,20 +255,20 @@ def plain : List Event :=
   [ .github { targetSha := 100, prs := [pr .APPROVED []] }, .batch, .heal ⟨[true], []⟩, .done 1 true, .batch ]
 
 -- approved PR, batch 1 (500 on 100) succeeded: the next block posts SUCCESS and merges
-example : (evHeal (run false init plain).1 ⟨[], [true]⟩).2 = [.post 7 500 .success, .merge 7 500 true] := by decide +kernel
+example : (evHeal (run true init plain).1 ⟨[], [true]⟩).2 = [.post 7 500 .success, .merge 7 500 true] := by decide +kernel
 -- same, but the merge is refused and the target moves: batch replaced, stale SUCCESS status, the assert stops the block
 def movedSnap : Snapshot :=
   { targetSha := 101,
     prs := [{ number := 7, headSha := 500, authorized := true,
               labels := { highPrio := false, wip := false, stacked := false, doNotTest := false, other := false },
               decision := .APPROVED, checks := [{ ctx := 0, required := true, state := .SUCCESS }] }] }
-example : (evHeal (evGithub (evHeal (run false init plain).1 ⟨[], [false]⟩).1 movedSnap) ⟨[true], []⟩).2
+example : (evHeal (evGithub (evHeal (run true init plain).1 ⟨[], [false]⟩).1 movedSnap) ⟨[true], []⟩).2
     = [.start 7 2 500 101, .assertFailed 7] := by decide +kernel
--- the witness history is well-formed and leaves PR 1 in build_state success with the running batch 2
+-- the witness history is well-formed and left (old code) PR 1 in build_state success with the running batch 2
 example : ∀ e ∈ witness, e.wf := by decide
 example : ((run false init witness).1.prs.map fun p => (p.number, p.buildState, p.batch)) =
     [(1, some .success, .real 2 1001), (2, none, .real 2 1001)] := by decide +kernel
--- with the patch the same history does not merge
+-- the current code does not merge after the same history
 example : ∀ n sha ok, Out.merge n sha ok ∉ (evHeal (run true init witness).1 ⟨[], []⟩).2 := by
   have : (evHeal (run true init witness).1 ⟨[], []⟩).2 = [] := by decide +kernel
   simp [this]
